@@ -160,17 +160,26 @@ async fn execute_multi_command_pipeline<S: Runtime + 'static>(
     let mut pids = Vec::new();
     while let Some(command) = commands.next() {
         let has_next = commands.len() > 0; // TODO ExactSizeIterator::is_empty
-        shift_or_fail(env, &mut pipes, has_next).await?;
+        if let Break(divert) = shift_or_fail(env, &mut pipes, has_next).await {
+            pipes.close_all(env);
+            return Break(divert);
+        }
 
-        let pipes = pipes;
+        let child_pipes = pipes;
         let start_result = Config::new()
             .start(env, async move |env, _job_control| {
-                let result = connect_pipe_and_execute_command(env, pipes, command).await;
+                let result = connect_pipe_and_execute_command(env, child_pipes, command).await;
                 env.apply_result(result);
                 run_exit_trap(env).await;
             })
             .await;
-        pids.push(pid_or_fail(env, start_result).await?);
+        match pid_or_fail(env, start_result).await {
+            Continue(pid) => pids.push(pid),
+            Break(divert) => {
+                pipes.close_all(env);
+                return Break(divert);
+            }
+        }
     }
 
     shift_or_fail(env, &mut pipes, false).await?;
@@ -289,6 +298,19 @@ impl PipeSet {
         }
 
         Ok(())
+    }
+
+    /// Closes all the pipe FDs that are still open in this process.
+    ///
+    /// This function is used when the pipeline cannot be set up any further.
+    fn close_all<S: Close>(&mut self, env: &mut Env<S>) {
+        if let Some(fd) = self.read_previous.take() {
+            let _ = env.system.close(fd);
+        }
+        if let Some((reader, writer)) = self.next.take() {
+            let _ = env.system.close(reader);
+            let _ = env.system.close(writer);
+        }
     }
 
     /// Moves the pipe FDs to stdin/stdout and closes the FDs that are no longer
